@@ -30,6 +30,17 @@ CORPUS = [
         except (InvalidFrameException, InvalidResponseException) as e:
             _LOGGER.error(e)
 """),
+    # F7 (fixed in c97b82a): a response with the capabilities id need not be a CapabilitiesResponse
+    M("caps-class-not-checked", D, """        # A response with the capabilities ID is only a CapabilitiesResponse if it answers a query
+        if not isinstance(response, CapabilitiesResponse):
+""", """        response = cast(CapabilitiesResponse, response)
+        if response is None:
+"""),
+    M("additional-caps-class-not-checked", D, "            if isinstance(additional_response, CapabilitiesResponse):", "            if additional_response:"),
+    M("n-caps-class-checked-late", D, """        # A response with the capabilities ID is only a CapabilitiesResponse if it answers a query
+        if not isinstance(response, CapabilitiesResponse):
+""", """        if response is None or not isinstance(response, CapabilitiesResponse):
+""", expect="S"),
     M("new-index-outside-wrapper", D, "            self._power_state = res.power_on\n", "            self._power_state = res.power_on and res.payload[30] == 0\n"),
     M("enum-unguarded", D, """                self._breeze_mode = (AirConditioner.BreezeMode(value) if value in AirConditioner.BreezeMode.list()
                                      else AirConditioner.BreezeMode.OFF)""", "                self._breeze_mode = AirConditioner.BreezeMode(value)"),
